@@ -402,6 +402,7 @@ def gen_grid_objects(r: random.Random, tl, keys: int, n_measures: int, hi: int, 
 BMS_LAYOUTS = ["BMS", "BME", "BME", "PMS", "PMS_BME", "PMS_5B"]
 BMS_TXT = ["Song", "A B", "x", "Title 1", "cold breath", "曲", "ソース", "表示", "能力 ポップ", "日本語 タイトル", "ｶﾀｶﾅ", "A [ANOTHER]", "〜wave〜"]
 BMS_SUBDIV = [1, 2, 3, 4, 4, 6, 8, 8, 12, 16, 16, 24, 32, 48, 64, 96, 192, 5, 7, 9]
+ODD_FAMILIES = [[5, 10, 20, 40], [7, 14, 28, 56], [9, 18, 36], [11, 22, 44], [4, 12, 28, 84]]  # slots per measure; lcm <= 84 inside a family
 B36 = "0123456789ABCDEFGHIJKLMNOPQRSTUVWXYZ"
 
 
@@ -454,6 +455,9 @@ def gen_bms_doc(r: random.Random, hi: int = 6, layout: str | None = None, odd_te
         headers = hd + tl
     obj_ids = wav_ids + [_id36(i) for i in r.sample(range(200, 400), 2)]  # some ids without a #WAV
     lines = []
+    # C09 sources: every measure stays inside one family of subdivisions, so that its rows fit StepMania's 384-row cap:
+    # the divisors of 192, or one odd family (fifths, sevenths, ninths, elevenths of a beat and their doublings)
+    fam = [r.choice([BMS_SUBDIV[:17]] * 6 + ODD_FAMILIES) for _ in range(n_meas)]
     # notes: per lane a walk over positions
     for ch in lanes:
         if r.random() < 0.35 and not (pipeline and ch == lanes[-1]):
@@ -465,7 +469,7 @@ def gen_bms_doc(r: random.Random, hi: int = 6, layout: str | None = None, odd_te
             n_lines = r.choice([1, 1, 1, 2])
             used: set = set()
             for _ in range(n_lines):
-                n = r.choice(BMS_SUBDIV[:17] if pipeline else BMS_SUBDIV)
+                n = r.choice(fam[m] if pipeline else BMS_SUBDIV)
                 seq = [b"00"] * n
                 k = r.randint(1, max(1, min(n, 3)))
                 idxs = sorted(r.sample(range(n), min(k, n)))
@@ -562,6 +566,7 @@ OJN_BPMS = [130.0, 120.0, 60.0, 200.0, 173.5, 87.25, 240.0, 90.0, 0.75, 300.0, 1
 
 def gen_ojn_level(r: random.Random, n_meas: int, hi: int, tempo_on_measures=False) -> list:
     pkgs = []
+    fam = [r.choice([OJN_SLOTS[:17]] * 6 + ODD_FAMILIES) for _ in range(n_meas + 2)]  # see gen_bms_doc
     # notes per column, long notes nest across packages and measures
     for col in range(7):
         if r.random() < 0.3:
@@ -570,7 +575,7 @@ def gen_ojn_level(r: random.Random, n_meas: int, hi: int, tempo_on_measures=Fals
         for m in range(n_meas):
             if r.random() < 0.45 and not open_:
                 continue
-            n = r.choice(OJN_SLOTS[:17] if tempo_on_measures else OJN_SLOTS)
+            n = r.choice(fam[m] if tempo_on_measures else OJN_SLOTS)
             ev = [0] * n
             k = r.randint(1, max(1, min(n, 3)))
             for i in sorted(r.sample(range(n), min(k, n))):
